@@ -178,7 +178,7 @@ Qed.
 (* world invariant: cache invariant + the running Sets of model and reference agree *)
 Definition pend_rel (ws : list (nat * pending)) (gs : list (nat * (bytes * bytes * bytes))) : Prop :=
   forall s, match nlookup s ws, nlookup s gs with
-            | Some pd, Some (k, fed, src) => pd_key pd = k /\ pd_wr pd = WrMem fed /\ pd_src pd = src
+            | Some pd, Some (k, fed, src) => pd_key pd = k /\ pd_wr pd = WrMem fed /\ pd_src pd = src /\ pd_failat pd = None
             | None, None => True
             | _, _ => False
             end.
@@ -204,10 +204,10 @@ Proof.
 Qed.
 
 Lemma pend_rel_set ws gs s pd k fed src :
-  pend_rel ws gs -> pd_key pd = k -> pd_wr pd = WrMem fed -> pd_src pd = src ->
+  pend_rel ws gs -> pd_key pd = k -> pd_wr pd = WrMem fed -> pd_src pd = src -> pd_failat pd = None ->
   pend_rel (nset s pd ws) (nset s (k, fed, src) gs).
 Proof.
-  intros H H1 H2 H3 s'. destruct (Nat.eq_dec s s') as [->|N].
+  intros H H1 H2 H3 H4 s'. destruct (Nat.eq_dec s s') as [->|N].
   - rewrite !nlookup_nset_eq. auto.
   - rewrite !nlookup_nset_neq by exact N. apply H.
 Qed.
@@ -264,7 +264,7 @@ Proof.
     split; [|exact I]. pose proof (Hp s) as Hs.
     destruct (nlookup s (w_sets w)) as [pd|] eqn:E1; destruct (nlookup s (g_pend g)) as [[[k0 fed] src]|] eqn:E2;
       try contradiction.
-    + destruct Hs as (Hk & Hw & Hsrc). rewrite Hsrc in H.
+    + destruct Hs as (Hk & Hw & Hsrc & Hfa). rewrite Hsrc in H.
       destruct (firstn n src) as [|b chunk] eqn:Ef.
       * (* nothing delivered: the world is unchanged *)
         inversion H; subst r w'; clear H.
@@ -274,7 +274,7 @@ Proof.
            rewrite Hsrc, <- (skipn_length_firstn n src), Ef. reflexivity.
         -- rewrite nlookup_nset_neq by exact N. apply Hp.
       * inversion H; subst r w'; clear H. unfold feed. rewrite E1, Hw.
-        destruct (cinv_chunk fed (b :: chunk) _ _ Hc) as (c' & Ec & Hc'). rewrite Ec.
+        destruct (cinv_chunk fed (b :: chunk) _ _ Hc) as (c' & Ec & Hc'). rewrite Ec, Hfa.
         mk; [exact Hc' | | exact Hh]. apply pend_rel_set; auto. cbn [pd_src].
         change (skipn (length (b :: chunk)) (pd_src pd) = skipn n src).
         rewrite Hsrc, <- Ef. apply skipn_length_firstn.
@@ -283,7 +283,7 @@ Proof.
     split; [|exact I]. pose proof (Hp s) as Hs.
     destruct (nlookup s (w_sets w)) as [pd|] eqn:E1; destruct (nlookup s (g_pend g)) as [[[k0 fed] src]|] eqn:E2;
       try contradiction.
-    + destruct Hs as (Hk & Hw & Hsrc). rewrite Hw in H.
+    + destruct Hs as (Hk & Hw & Hsrc & Hfa). rewrite Hw in H.
       destruct (c_end_ok (pd_key pd) (pd_hint pd) (WrMem fed) (pd_total pd) (w_c w)) as [c|] eqn:E; [|discriminate].
       inv H. mk; [eapply cinv_end_ok; eassumption | apply pend_rel_remove, Hp | exact Hh].
     + inv H. mk; assumption.
@@ -291,18 +291,18 @@ Proof.
     split; [|exact I]. pose proof (Hp s) as Hs.
     destruct (nlookup s (w_sets w)) as [pd|] eqn:E1; destruct (nlookup s (g_pend g)) as [[[k0 fed] src]|] eqn:E2;
       try contradiction.
-    + destruct Hs as (Hk & Hw & Hsrc). inv H. mk; [apply cinv_end_err, Hc | apply pend_rel_remove, Hp | exact Hh].
+    + destruct Hs as (Hk & Hw & Hsrc & Hfa). inv H. mk; [apply cinv_end_err, Hc | apply pend_rel_remove, Hp | exact Hh].
     + inv H. mk; assumption.
   - (* ORead *)
     split; [|exact I].
     destruct (nlookup h (w_handles w)) as [hd|] eqn:El; [|inv H; mk; assumption].
-    destruct (Hh _ _ El) as [r0 ->]. cbn [h_read] in H.
+    destruct (Hh _ _ El) as [r0 ->]. cbn [h_read would_hang] in H.
     destruct (rd_read r0 n (c_p (w_c w))) as [c r1]. inv H.
     mk; [exact Hc | exact Hp | apply handles_cache_set, Hh].
   - (* OFinish *)
     split; [|exact I].
     destruct (nlookup h (w_handles w)) as [hd|] eqn:El; [|inv H; mk; assumption].
-    destruct (Hh _ _ El) as [r0 ->]. cbn [h_read] in H. inv H.
+    destruct (Hh _ _ El) as [r0 ->]. cbn [h_read would_hang] in H. inv H.
     mk; [exact Hc | exact Hp | apply handles_cache_remove, Hh].
   - (* OClose *)
     split; [|exact I].
@@ -465,22 +465,52 @@ Proof.
   destruct (end_ok_total (pd_key pd) (pd_hint pd) (pd_wr pd) (pd_total pd) (w_c w)) as (c' & ->). eexists; reflexivity.
 Qed.
 
-Lemma h_read_total hd n w : exists c hd' w', h_read hd n w = Some (c, hd', w').
+Lemma h_read_total hd n w : exists c e hd' w', h_read hd n w = Some (c, e, hd', w').
 Proof.
-  destruct hd as [r | data off | data off written active sid]; cbn [h_read].
-  - destruct n as [n|]; [destruct (rd_read r n (c_p (w_c w))) |]; eexists _, _, _; reflexivity.
-  - eexists _, _, _; reflexivity.
-  - match goal with |- context [if ?b then match fill_ok sid ?w1 with _ => _ end else _] =>
-      destruct b; [destruct (fill_ok_total sid w1) as (w2 & ->)|] end; eexists _, _, _; reflexivity.
+  destruct hd as [r | data off trunc | data off written active sid trunc]; cbn [h_read].
+  - destruct n as [n|]; [destruct (rd_read r n (c_p (w_c w))) |]; eexists _, _, _, _; reflexivity.
+  - eexists _, _, _, _; reflexivity.
+  - match goal with |- context [if ?b then (if trunc then _ else match fill_ok sid ?w1 with _ => _ end) else _] =>
+      destruct b; [destruct trunc; [|destruct (fill_ok_total sid w1) as (w2 & ->)]|] end; eexists _, _, _, _; reflexivity.
+Qed.
+
+Lemma part_open_total h id f w : exists r w', part_open h id f w = Some (r, w').
+Proof.
+  unfold part_open. destruct (nlookup h (w_handles w)); [eexists _, _; reflexivity|].
+  destruct (c_get id (w_c w)) as [c [r|]]; [eexists _, _; reflexivity|].
+  cbn [set_c w_inner w_hints w_c w_handles w_sets w_nextsid].
+  assert (exists r w', match alookup id (w_inner w) with
+     | None => Some (RNotFound, set_c c w)
+     | Some data0 =>
+        let trunc := match f with FReadFail k => k <? length data0 | _ => false end in
+        let data := match f with FReadFail k => firstn k data0 | _ => data0 end in
+        if mem_bytes id (w_hints w) then Some (ROpen B"i", set_handles (nset h (HInner data 0 trunc) (w_handles w)) (set_c c w))
+        else match c_begin id (-1) c with
+             | None => None
+             | Some (c2, wr0) =>
+                 let sid := w_nextsid w in
+                 let failat := match f with FStoreFail j => Some j | _ => None end in
+                 let w2 := bump_sid (set_c c2 (set_c c w)) in
+                 let w3 := match failat with
+                           | Some 0 => set_c (c_remove id (c_end_err id c2)) w2
+                           | _ => set_sets (nset sid {| pd_key := id; pd_hint := (-1)%Z; pd_wr := wr0; pd_total := 0;
+                                                       pd_src := []; pd_failat := failat |} (w_sets w2)) w2
+                           end in
+                 Some (ROpen B"s", set_handles (nset h (HStream data 0 0 true sid trunc) (w_handles w3)) w3)
+             end
+     end = Some (r, w')) as Hmain.
+  { destruct (alookup id (w_inner w)) as [data0|]; [|eexists _, _; reflexivity]. cbv zeta.
+    destruct (mem_bytes id (w_hints w)); [eexists _, _; reflexivity|].
+    destruct (begin_total id (-1) c) as (c2 & wr0 & ->). eexists _, _; reflexivity. }
+  destruct f; try exact Hmain. eexists _, _; reflexivity.
 Qed.
 
 Lemma step1_total o w : exists r w', step1 o w = Some (r, w').
 Proof.
-  destruct o; cbn [step1].
+  destruct o; cbn [step1]; try apply part_open_total; try (eexists _, _; reflexivity).
   - destruct (set_total k v hint None (w_c w)) as (c & ->). eexists _, _; reflexivity.
   - destruct (set_total k v hint (Some n) (w_c w)) as (c & ->). eexists _, _; reflexivity.
   - destruct (c_get k (w_c w)) as [c [r|]]; eexists _, _; reflexivity.
-  - eexists _, _; reflexivity.
   - destruct (nlookup h (w_handles w)); [eexists _, _; reflexivity|].
     destruct (c_get k (w_c w)) as [c [r|]]; eexists _, _; reflexivity.
   - destruct (nlookup s (w_sets w)); [eexists _, _; reflexivity|].
@@ -490,9 +520,11 @@ Proof.
     destruct (end_ok_total (pd_key pd) (pd_hint pd) (pd_wr pd) (pd_total pd) (w_c w)) as (c & ->). eexists _, _; reflexivity.
   - destruct (nlookup s (w_sets w)) as [pd|]; eexists _, _; reflexivity.
   - destruct (nlookup h (w_handles w)) as [hd|]; [|eexists _, _; reflexivity].
-    destruct (h_read_total hd (Some n) w) as (c & hd' & w' & ->). eexists _, _; reflexivity.
+    destruct (would_hang hd (Some n) w); [eexists _, _; reflexivity|].
+    destruct (h_read_total hd (Some n) w) as (c & e & hd' & w' & ->). eexists _, _; reflexivity.
   - destruct (nlookup h (w_handles w)) as [hd|]; [|eexists _, _; reflexivity].
-    destruct (h_read_total hd None w) as (c & hd' & w' & ->). eexists _, _; reflexivity.
+    destruct (would_hang hd None w); [eexists _, _; reflexivity|].
+    destruct (h_read_total hd None w) as (c & e & hd' & w' & ->). eexists _, _; reflexivity.
   - destruct (nlookup h (w_handles w)) as [hd|]; eexists _, _; reflexivity.
   - destruct (length v <=? w_maxpart w).
     + match goal with |- context [c_set id v ?hint None ?c] => destruct (set_total id v hint None c) as (c' & ->) end.
@@ -500,20 +532,22 @@ Proof.
     + eexists _, _; reflexivity.
   - destruct (alookup id (w_inner w)); eexists _, _; reflexivity.
   - destruct (alookup id (w_inner w)); eexists _, _; reflexivity.
-  - destruct (nlookup h (w_handles w)); [eexists _, _; reflexivity|].
-    destruct (c_get id (w_c w)) as [c [r|]]; [eexists _, _; reflexivity|].
-    cbn [set_c w_inner w_hints w_c w_handles w_sets w_nextsid].
-    destruct (alookup id (w_inner w)) as [data|]; [|eexists _, _; reflexivity].
-    destruct (mem_bytes id (w_hints w)); [eexists _, _; reflexivity|].
-    destruct (begin_total id (-1) c) as (c2 & wr0 & ->). eexists _, _; reflexivity.
-  - eexists _, _; reflexivity.
+  - destruct (length v <=? w_maxpart w); [|eexists _, _; reflexivity].
+    match goal with |- context [c_set id v ?hint ?fl ?c] => destruct (set_total id v hint fl c) as (c' & ->) end.
+    eexists _, _; reflexivity.
 Qed.
 
 Lemma step_total o w : exists r w', step o w = Some (r, w').
 Proof.
-  destruct o; try apply step1_total. cbn [step].
-  destruct (step1_total (POpen tmp_handle id) w) as (r & w1 & ->).
-  destruct r; try (eexists _, _; reflexivity). apply step1_total.
+  destruct o; try apply step1_total; cbn [step].
+  - destruct (step1_total (POpen tmp_handle id) w) as (r & w1 & ->).
+    destruct r; try (eexists _, _; reflexivity). apply step1_total.
+  - destruct (step1_total (POpenF tmp_handle id f) w) as (r & w1 & ->).
+    destruct r; try (eexists _, _; reflexivity). apply step1_total.
+  - destruct (step1_total (POpen tmp_handle id) w) as (r & w1 & ->).
+    destruct r; try (eexists _, _; reflexivity).
+    destruct (step1_total (ORead tmp_handle n) w1) as (r2 & w2 & ->).
+    destruct (step1_total (OClose tmp_handle) w2) as (r3 & w3 & ->). eexists _, _; reflexivity.
 Qed.
 
 Lemma run_total ops : forall w, run ops w <> None.
